@@ -15,6 +15,7 @@ pub mod c13;
 pub mod c18;
 pub mod c10;
 pub mod c19;
+pub mod c19_more;
 pub mod c01;
 pub mod c02;
 pub mod c03;
